@@ -2304,6 +2304,8 @@ def _gen_lut_cases(rng, n):
                     continue
                 holder = rng.choice([None, None, 'seg', 'pm'] + (['pr'] if bits == 16 else [])) \
                     if via in ('luts', 'combined') else rng.choice([None, 'seg']) if via == 'colors' else None
+                if holder == 'seg' and k < 2:
+                    holder = 'pm'      # a label map needs background + one segment: a one-entry palette cannot hold it
                 cases.append({'kind': 'lut', 'cls': 'PaletteColorLUTTransformation', 'via': via, 'bits': bits,
                               'first': 0 if holder else rng.choice([0, 1]), 'r': col(bits, k), 'g': col(bits, k),
                               'b': col(bits, k), 'holder': holder,
